@@ -37,8 +37,15 @@ def rowOf (t : STable) (cols : List Bytes) (vals : List Val) : Option (List Val)
   | .error _ => none
   | .ok bs => if bs.length > Generated.c_maxValueSize then none else some (t.cols.map fun fd => get m fd.name)
 
+/-- the names of a column list are columns of the table, each named once (an INSERT column list, the
+SET columns of an UPDATE) -/
+def namesOK (t : STable) (names : List String) : Bool :=
+  names.all (fun c => t.cols.any (·.name == c)) && names.eraseDups.length == names.length
+
 def specInsert (db : SDB) (table : Bytes) (cols : List Bytes) (rows : List (List Val)) : Option SDB := do
   let t ← findTable db table
+  -- (a statement with rows only: an empty VALUES list is not in the grammar)
+  if !rows.isEmpty && !namesOK t (cols.map nameStr) then none else
   let newRows ← rows.mapM (rowOf t cols)
   pure (db.map fun x => if x.name == table then { x with rows := x.rows ++ newRows.map fun v => ⟨none, v⟩ } else x)
 
@@ -59,6 +66,7 @@ def litVal : Lit → Val
 def specUpdate (db : SDB) (table : Bytes) (sets : List (Bytes × VExpr)) (w : Option Cond) : Option SDB := do
   let t ← findTable db table
   if sets.any (fun p => match p.2 with | .col _ => true | _ => false) then none else
+  if !namesOK t (sets.map fun p => nameStr p.1) then none else
   let sel ← selects t w
   let assign (vals : List Val) : Option (List Val) :=
     let m : Vals := (sets.map fun p => (nameStr p.1, match p.2 with | .lit l => litVal l | .col _ => Val.null)).reverse ++
@@ -85,6 +93,7 @@ def colField (c : ColDef) : FieldDef :=
 def specCreate (db : SDB) (name : Bytes) (cols : List ColDef) : Option SDB :=
   if (findTable db name).isSome || name == "sys_pages".toUTF8.toList || name == "sys_schema".toUTF8.toList then none
   else if cols.any (fun c => match c.ty with | .varchar n => n > 2147483647 | _ => false) then none
+  else if (cols.map fun c => nameStr c.name).eraseDups.length != cols.length then none   -- a column name used twice
   else some (db ++ [⟨name, cols.map colField, []⟩])
 
 /-- States a refused multi-row statement would leave behind if it had applied a proper prefix of
